@@ -8,6 +8,7 @@ use crate::mpcrun::{self, ArgOverride, MpcRun, MpcSpec};
 use crate::schema::{self, V};
 use crate::sim::{SchedSpec, SimChannel, Strategy, Task, TaskOut};
 use rand::Rng;
+use rand::seq::SliceRandom;
 use serde_json::{Value, json};
 use std::collections::{BTreeMap, BTreeSet};
 use std::future::Future;
@@ -131,7 +132,7 @@ impl Check for C05 {
         "exploration"
     }
     fn rule(&self) -> String {
-        "each evaluation is one simulated all-honest execution (n in 2..4, every non-empty output set shape, evaluator inside or outside it, circuits whose outputs alias reused registers) whose complete transcript is analysed: nothing is addressed to a non-output party after the sender finished input processing, 'output wire shares' / 'lambda' never go to a non-output party and carry values exactly at the unique output registers; every fourth run is repeated with the output set enlarged by one outsider q and the number of messages q receives must differ by exactly the output-stage messages (label-independent backstop); non-trivial = runs with at least one party outside p_out; distinct = (circuit, roles) hash".into()
+        "each evaluation is one simulated all-honest execution (n in 2..4, every non-empty output set shape, also written with repeated indices and at least n entries, evaluator inside or outside it, circuits whose outputs alias reused registers) whose complete transcript is analysed: nothing is addressed to a non-output party after the sender finished input processing, 'output wire shares' / 'lambda' never go to a non-output party and carry values exactly at the unique output registers; every fourth run is repeated with the output set enlarged by one outsider q and the number of messages q receives must differ by exactly the output-stage messages (label-independent backstop); non-trivial = runs with at least one party outside p_out; distinct = (circuit, roles) hash".into()
     }
     fn assumptions(&self) -> Vec<String> {
         vec!["privacy is checked in the operational form of the statement (what is sent to whom), not as indistinguishability".into()]
@@ -157,6 +158,16 @@ impl Check for C05 {
             if spec.p_out.len() == n && rng.random_bool(0.8) {
                 let drop = rng.random_range(0..n);
                 spec.p_out.retain(|p| *p != drop);
+            }
+            // the output set is a set however it is written: in a third of the runs with an outsider
+            // it is passed with repeated indices, at least as many entries as there are parties
+            if spec.p_out.len() < n && rng.random_bool(0.33) {
+                let members = spec.p_out.clone();
+                while spec.p_out.len() < n + rng.random_range(0..2) {
+                    spec.p_out.push(members[rng.random_range(0..members.len())]);
+                }
+                spec.p_out.shuffle(&mut rng);
+                out.count("output_set_written_with_repetitions", 1);
             }
             let sv = serde_json::to_value(&spec).unwrap();
             cx.begin(&sv);
@@ -756,8 +767,11 @@ fn c19_model(h: &C19Hist) -> Vec<Violation> {
 
 fn c19_gen_hist(seed: u64, k: u64) -> C19Hist {
     let mut rng = entropy::rng(seed, 0xc19, k);
-    let chunk = [1usize, 2, 3, 5, 8][rng.random_range(0..5)];
-    let len = rng.random_range(1..=12);
+    // one history in twenty works at the engine's scale: chunks of hundreds to thousands of
+    // elements of up to a few KiB each (a single encoded chunk of up to several MiB)
+    let big = k % 20 == 19;
+    let chunk = if big { [256usize, 1000, 2500][rng.random_range(0..3)] } else { [1usize, 2, 3, 5, 8][rng.random_range(0..5)] };
+    let len = if big { rng.random_range(1..=5) } else { rng.random_range(1..=12) };
     let regular = rng.random_bool(0.5);
     let mut ops = vec![];
     for i in 0..len {
@@ -766,15 +780,20 @@ fn c19_gen_hist(seed: u64, k: u64) -> C19Hist {
                 if regular && i + 3 < len {
                     BufOp::Append(chunk)
                 } else {
-                    BufOp::Append(rng.random_range(1..=3 * chunk))
+                    BufOp::Append(rng.random_range(1..=(if big { chunk + chunk / 4 } else { 3 * chunk })))
                 }
             }
             3 => BufOp::IterAll,
             4 => BufOp::IterTake(rng.random_range(0..3 * chunk)),
             5 => BufOp::ChunksAll,
             6 => BufOp::ChunksTake(rng.random_range(0..3)),
-            _ => BufOp::Append(rng.random_range(1..=3 * chunk)),
+            _ => BufOp::Append(rng.random_range(1..=(if big { chunk + chunk / 4 } else { 3 * chunk }))),
         });
+    }
+    if big {
+        // at least one full-size append followed by a complete read
+        ops.insert(0, BufOp::Append(chunk));
+        ops.push(if rng.random() { BufOp::IterAll } else { BufOp::ChunksAll });
     }
     if regular {
         // keep the "all appends but the last have the requested size" shape for boundary checks
@@ -790,7 +809,7 @@ fn c19_gen_hist(seed: u64, k: u64) -> C19Hist {
     C19Hist {
         chunk,
         ops,
-        elem_kind: rng.random_range(0..4),
+        elem_kind: if big { [0u8, 3, 40, 120][rng.random_range(0..4)] } else { rng.random_range(0..4) },
         seed: entropy::mix(seed, 0xc19f, k),
     }
 }
@@ -859,7 +878,7 @@ impl Check for C19 {
         "exploration"
     }
     fn rule(&self) -> String {
-        "two kinds of evaluation: (a) storage model: a seeded operation history of length <= 12 over {append(size 1..3*chunk), iterate fully, iterate k items then drop, chunks fully, chunks k then drop, re-append} applied in lock-step to the real temp-file buffer, the real in-memory buffer and a Vec<Vec<_>> reference model with the engine's share-shaped element type: same items, same order, same chunk boundaries whenever all appends but the last had the requested size, directory empty during and after; (b) engine: one simulated mpc execution per tmp_dir assignment of an n<=3 configuration, all replaying the recorded schedule of the all-in-memory run with the same coins: transcripts must be byte-identical and results equal; circuits above 1000 AND gates (several chunks) in a fixed share; distinct = history / (configuration, assignment) hash".into()
+        "two kinds of evaluation: (a) storage model: a seeded operation history of length <= 12 over {append(size 1..3*chunk; chunk in {1,2,3,5,8}, and in one history of twenty chunk in {256,1000,2500} with elements of up to 3.8 KiB, i.e. single encoded chunks of up to 9 MiB), iterate fully, iterate k items then drop, chunks fully, chunks k then drop, re-append} applied in lock-step to the real temp-file buffer, the real in-memory buffer and a Vec<Vec<_>> reference model with the engine's share-shaped element type: same items, same order, same chunk boundaries whenever all appends but the last had the requested size, directory empty during and after; (b) engine: one simulated mpc execution per tmp_dir assignment of an n<=3 configuration, all replaying the recorded schedule of the all-in-memory run with the same coins: transcripts must be byte-identical and results equal; circuits above 1000 AND gates (several chunks) in a fixed share; distinct = history / (configuration, assignment) hash".into()
     }
     fn assumptions(&self) -> Vec<String> {
         vec!["I/O faults (ENOSPC, short writes) are outside the property's statement and are not injected; the temp files are real files in a per-run directory".into()]
@@ -886,6 +905,9 @@ impl Check for C19 {
                 cx.begin(&json!({"hist": h}));
                 out.evals += 1;
                 out.count("histories", 1);
+                if h.chunk >= 256 {
+                    out.count("histories_at_engine_scale", 1);
+                }
                 out.distinct.push(entropy::fnv(0, serde_json::to_string(&h.ops).unwrap().as_bytes()) ^ h.chunk as u64);
                 out.violations.extend(c19_model(&h));
                 if j == 0 && k % 10 == 0 {
